@@ -78,10 +78,11 @@ def call_real(sp, op, par, x, conv=list):
         return sp.flip(x, axes=_none(par["axes"]))
     if op == "circshift":
         return sp.circshift(x, list(par["shifts"]), axes=_none(par["axes"]))
+    # (a zero shift is the documented default: it is passed as None here - the default path - and explicitly by the container variants)
     if op == "downsample":
-        return sp.downsample(x, list(par["factors"]), shift=list(par["shift"]))
+        return sp.downsample(x, list(par["factors"]), shift=list(par["shift"]) if any(par["shift"]) else None)
     if op == "upsample":
-        return sp.upsample(x, list(par["oshape"]), list(par["factors"]), shift=list(par["shift"]))
+        return sp.upsample(x, list(par["oshape"]), list(par["factors"]), shift=list(par["shift"]) if any(par["shift"]) else None)
     if op == "a2b":
         return sp.array_to_blocks(x, list(par["B"]), list(par["S"]))
     if op == "b2a":
